@@ -36,5 +36,8 @@ for i, op in enumerate(ops):
     r = rfharness.py_issue(w, cfg, op, op.get("cid", i))
     out("END %d %d %d |\n" % (i + 1, 0 if r[0] == "ok" else -1, r[1] if r[0] == "ok" else 0))
 out("BEGIN %d close\n" % (len(ops) + 1))
-w.close()
-out("END %d 0 0 |\n" % (len(ops) + 1))
+try:
+    w.close()
+    out("END %d 0 0 |\n" % (len(ops) + 1))
+except Exception:
+    out("END %d -1 0 |\n" % (len(ops) + 1))
